@@ -55,6 +55,9 @@ def run(chk: Check) -> None:
     construction_propagates(chk)
     pair_flags(chk)
     prov_failure_states(chk)
+    # "... with its future raising it": the EXCEPTED entry resolves the process future whatever happened to it before (shared with C02)
+    from .c02 import future_resolution
+    future_resolution(chk)
     # EXCEPTED must be reachable from every live state, else the failure itself is refused
     prog = chk.prog
     for lbl in common.LIVE:
